@@ -33,3 +33,54 @@ package topics
 //@   results err
 //@   requires m.p != nil
 //@   modifies allfields(rnode), allfields(snode), allfields(MemTopics)
+
+// Subscribe: grants min(requested, MaxQosAllowed); a rejected filter or QoS yields QosFailure (0x80) and an error.
+// Ghost log (per goroutine): the k-th Subscribe call (k = nsub before the call) records the filter it was given
+// (subarr/suboff/sublen), the requested QoS (subreq) and the answer (subres).
+//@ iface Provider.Subscribe
+//@   trusted
+//@   results rqos, err
+//@   flag args self, topic, qos, subscriber
+//@   ensures[C07:granted] err == nil ==> qos <= 2 && rqos == ite(qos > MaxQosAllowed, MaxQosAllowed, qos)
+//@   ensures[C07:rejected] err != nil ==> rqos == 128
+//@   ensures[ghostdef-sub] gfield(0, "nsub") == old(gfield(0, "nsub"))+1 && gfield(old(gfield(0, "nsub")), "subarr") == arr(topic) && gfield(old(gfield(0, "nsub")), "suboff") == off(topic) && gfield(old(gfield(0, "nsub")), "sublen") == len(topic) && gfield(old(gfield(0, "nsub")), "subreq") == int(qos) && gfield(old(gfield(0, "nsub")), "subres") == int(rqos)
+//@   modifies allfields(rnode), allfields(snode), allfields(MemTopics), gfield(0, "nsub"), gfield(gfield(0, "nsub"), "subarr"), gfield(gfield(0, "nsub"), "suboff"), gfield(gfield(0, "nsub"), "sublen"), gfield(gfield(0, "nsub"), "subreq"), gfield(gfield(0, "nsub"), "subres")
+
+//@ func (*Manager).Subscribe
+//@   results rqos, err
+//@   requires m.p != nil
+//@   ensures[C07:granted] err == nil ==> qos <= 2 && rqos == ite(qos > MaxQosAllowed, MaxQosAllowed, qos)
+//@   ensures[C07:rejected] err != nil ==> rqos == 128
+//@   ensures[C07:log] gfield(0, "nsub") == old(gfield(0, "nsub"))+1 && gfield(old(gfield(0, "nsub")), "subarr") == arr(topic) && gfield(old(gfield(0, "nsub")), "suboff") == off(topic) && gfield(old(gfield(0, "nsub")), "sublen") == len(topic) && gfield(old(gfield(0, "nsub")), "subreq") == int(qos) && gfield(old(gfield(0, "nsub")), "subres") == int(rqos)
+//@   modifies allfields(rnode), allfields(snode), allfields(MemTopics), gfield(0, "nsub"), gfield(gfield(0, "nsub"), "subarr"), gfield(gfield(0, "nsub"), "suboff"), gfield(gfield(0, "nsub"), "sublen"), gfield(gfield(0, "nsub"), "subreq"), gfield(gfield(0, "nsub"), "subres")
+
+//@ iface Provider.Unsubscribe
+//@   trusted
+//@   results err
+//@   flag args self, topic, subscriber
+//@   ensures[ghostdef-unsub] gfield(0, "nunsub") == old(gfield(0, "nunsub"))+1 && gfield(old(gfield(0, "nunsub")), "unsubarr") == arr(topic) && gfield(old(gfield(0, "nunsub")), "unsuboff") == off(topic) && gfield(old(gfield(0, "nunsub")), "unsublen") == len(topic)
+//@   modifies allfields(rnode), allfields(snode), allfields(MemTopics), gfield(0, "nunsub"), gfield(gfield(0, "nunsub"), "unsubarr"), gfield(gfield(0, "nunsub"), "unsuboff"), gfield(gfield(0, "nunsub"), "unsublen")
+
+//@ func (*Manager).Unsubscribe
+//@   results err
+//@   requires m.p != nil
+//@   ensures[C07:log] gfield(0, "nunsub") == old(gfield(0, "nunsub"))+1 && gfield(old(gfield(0, "nunsub")), "unsubarr") == arr(topic) && gfield(old(gfield(0, "nunsub")), "unsuboff") == off(topic) && gfield(old(gfield(0, "nunsub")), "unsublen") == len(topic)
+//@   modifies allfields(rnode), allfields(snode), allfields(MemTopics), gfield(0, "nunsub"), gfield(gfield(0, "nunsub"), "unsubarr"), gfield(gfield(0, "nunsub"), "unsuboff"), gfield(gfield(0, "nunsub"), "unsublen")
+
+// Retained appends the retained messages matching a filter to *msgs.
+//@ iface Provider.Retained
+//@   trusted
+//@   results err
+//@   flag args self, topic, msgs
+//@   ensures len(*msgs) >= old(len(*msgs)) && forall(old(len(*msgs)), len(*msgs), func(i int) bool { return (*msgs)[i] != nil && len((*msgs)[i].mtypeflags) == 1 })
+//@   ensures[prefix] forall(0, old(len(*msgs)), func(i int) bool { return (*msgs)[i] == old((*msgs)[i]) })
+//@   ensures[arrays] fresh(arr(*msgs)) || arr(*msgs) == arr(old(*msgs))
+//@   modifies *msgs, capelems(old(*msgs))
+
+//@ func (*Manager).Retained
+//@   results err
+//@   requires m.p != nil
+//@   ensures len(*msgs) >= old(len(*msgs)) && forall(old(len(*msgs)), len(*msgs), func(i int) bool { return (*msgs)[i] != nil && len((*msgs)[i].mtypeflags) == 1 })
+//@   ensures[prefix] forall(0, old(len(*msgs)), func(i int) bool { return (*msgs)[i] == old((*msgs)[i]) })
+//@   ensures[arrays] fresh(arr(*msgs)) || arr(*msgs) == arr(old(*msgs))
+//@   modifies *msgs, capelems(old(*msgs))
